@@ -40,3 +40,100 @@ def failing_uod_command_keeps_the_run_log_producible():
 
 if __name__ == "__main__":
     print(failing_uod_command_keeps_the_run_log_producible())
+
+
+# ---- four further executions under which the run log must stay producible (first reported by a seed agent on the unchanged tree) --------------
+def _uod(final_raises=False, ticks=5):
+    from openpectus.engine.hardware import RegisterDirection
+    from openpectus.lang.exec.tags_impl import ReadingTag
+    from openpectus.lang.exec.uod import UodBuilder, UodCommand
+    from openpectus.test.engine.test_helpers import TestHW
+
+    def create():
+        def reset(cmd: UodCommand, **kv):
+            if cmd.get_iteration_count() >= ticks:
+                cmd.set_complete()
+
+        def fin(cmd):
+            if final_raises:
+                raise RuntimeError("finalize boom")
+        b = (UodBuilder().with_instrument("T").with_author("a", "a@b.c").with_filename(__file__)
+             .with_hardware(TestHW(connected=True)).with_location("x")
+             .with_hardware_register("FT01", RegisterDirection.Both, path="x").with_tag(ReadingTag("FT01", "L/h"))
+             .with_command(name="Reset", exec_fn=reset, finalize_fn=fin).with_command(name="Other", exec_fn=reset))
+        u = b.build()
+        u.hwl.connect()
+        return u
+    return create
+
+
+def _runlog_problem(inst):
+    try:
+        inst.engine.tracking.get_runlog()
+        return None
+    except Exception as ex:
+        return f"get_runlog raised {type(ex).__name__}: {ex}"
+
+
+def _states(inst, prefix):
+    return [[(s.instance_id[:4], str(s.state_name)) for s in r.states] for r in inst.runtimeinfo.records if (r.name or "").startswith(prefix)]
+
+
+def _scenario(name, create, method, drive):
+    from openpectus.test.engine.utility_methods import EngineTestRunner
+    logging.disable(logging.CRITICAL)
+    try:
+        runner = EngineTestRunner(create, method, fail_on_log_error=False)
+        with runner.run() as inst:
+            inst.start_run()
+            extra = drive(inst)
+            bad = _runlog_problem(inst)
+            return {"violated": bad is not None, "scenario": name, "method": method, "what": bad, **(extra or {})}
+    finally:
+        logging.disable(logging.NOTSET)
+
+
+def force_of_a_completed_wait():
+    def drive(inst):
+        inst.run_ticks(8, fail_on_log_error=False)
+        rec = [r for r in inst.runtimeinfo.records if r.name == "Wait: 0.3s"][0]
+        try:
+            inst.engine.force_instruction(rec.states[-1].instance_id)
+            return {"request": "accepted", "states": _states(inst, "Wait")}
+        except Exception as ex:
+            return {"request": f"rejected: {ex}"[:90]}
+    return _scenario("force_instruction for a Wait that has already completed", _uod(ticks=2), "Wait: 0.3s\nMark: A\n", drive)
+
+
+def cancel_of_a_command_awaiting_its_threshold():
+    def drive(inst):
+        inst.run_ticks(3, fail_on_log_error=False)
+        rec = [r for r in inst.runtimeinfo.records if (r.name or "").endswith("Reset")]
+        out = {}
+        if rec and rec[0].states:
+            try:
+                inst.engine.cancel_instruction(rec[0].states[-1].instance_id)
+                out["request"] = "accepted"
+            except Exception as ex:
+                out["request"] = f"rejected: {ex}"[:90]
+        inst.run_ticks(20, fail_on_log_error=False)
+        out["states"] = _states(inst, "1.0 Reset") or _states(inst, "Reset")
+        return out
+    return _scenario("cancel_instruction for a UOD command still awaiting its threshold", _uod(ticks=2), "1.0 Reset\nMark: A\n", drive)
+
+
+def finalizer_that_raises_after_completion():
+    def drive(inst):
+        try:
+            inst.run_ticks(8, fail_on_log_error=False)
+        except Exception:
+            pass
+        return {"states": _states(inst, "Reset")}
+    return _scenario("UOD command whose finalize callback raises after the command completed", _uod(final_raises=True, ticks=2), "Reset\nMark: A\n", drive)
+
+
+def alarm_refiring_over_a_long_running_command():
+    def drive(inst):
+        inst.run_ticks(14, fail_on_log_error=False)
+        return {"states": _states(inst, "Reset")}
+    return _scenario("long running UOD command in the body of an Alarm that fires again", _uod(ticks=50), "Alarm: Run Time > 0s\n    Reset\n    Mark: A\n", drive)
